@@ -1,3 +1,645 @@
-//! C07 — not built yet.
+//! C07 — derived variable ranges are sound: `transformers::bounds` through `verif_hooks::analyze_bounds`.
+//!
+//! Every case is one `(domain, constraints, expressions)` instance.  The real analyzer is run in-process
+//! (under `catch_unwind`), its report (`bounds_of` of every declared variable, `bounds_of` of every listed
+//! expression, the domain after `apply_to_domain`) is the canonical answer `imp`; the Lean model answers
+//! the same request at `Float` and must agree bit for bit; the exact oracle then tests the PROPERTY on
+//! the implementation's published ranges.
 use crate::case::Case;
-pub fn generate(_seed: u64, _n: usize, _thorough: bool, _corpus: Option<&str>) -> Vec<Case> { vec![] }
+use crate::gen_exp::{self, ExpCfg};
+use crate::rng::Rng;
+use crate::sx;
+use indexmap::IndexMap;
+use rooc::model_transformer::{Constraint, DomainVariable, Exp};
+use rooc::verif_hooks::analyze_bounds;
+use rooc::{BinOp, Comparison, InputSpan, UnOp, VariableType};
+
+const TOL: f64 = 1e-9; // bounds.rs DEFAULT_TOLERANCE (private there; a change shows up as a diff)
+const INF: f64 = f64::INFINITY;
+
+// ---------------------------------------------------------------- expression helpers
+fn v(n: &str) -> Exp { Exp::Variable(n.to_string()) }
+fn pv(r: &mut Rng, vars: &[String]) -> Exp { Exp::Variable(r.pick(vars).clone()) }
+fn k(x: f64) -> Exp { Exp::Number(x) }
+fn bin(op: BinOp, a: Exp, b: Exp) -> Exp { Exp::BinOp(op, Box::new(a), Box::new(b)) }
+fn add(a: Exp, b: Exp) -> Exp { bin(BinOp::Add, a, b) }
+fn sub(a: Exp, b: Exp) -> Exp { bin(BinOp::Sub, a, b) }
+fn mul(a: Exp, b: Exp) -> Exp { bin(BinOp::Mul, a, b) }
+fn div(a: Exp, b: Exp) -> Exp { bin(BinOp::Div, a, b) }
+fn neg(a: Exp) -> Exp { Exp::UnOp(UnOp::Neg, Box::new(a)) }
+fn abs(a: Exp) -> Exp { Exp::Abs(Box::new(a)) }
+
+fn names(e: &Exp, out: &mut Vec<String>) {
+    match e {
+        Exp::Number(_) => {}
+        Exp::Variable(n) => { if !out.contains(n) { out.push(n.clone()) } }
+        Exp::Abs(a) | Exp::Not(a) | Exp::UnOp(_, a) => names(a, out),
+        Exp::Min(es) | Exp::Max(es) | Exp::And(es) | Exp::Or(es) => { for e in es { names(e, out) } }
+        Exp::Xor(a, b) | Exp::Implies(a, b) | Exp::Iff(a, b) | Exp::BinOp(_, a, b) => { names(a, out); names(b, out) }
+    }
+}
+
+// ---------------------------------------------------------------- instances
+#[derive(Clone)]
+struct Inst {
+    domain: Vec<(String, VariableType)>,
+    constraints: Vec<Constraint>,
+    exprs: Vec<Exp>,
+    tags: Vec<String>,
+}
+
+fn cn(i: usize) -> String { format!("r{}", i) }
+fn row(l: Exp, c: Comparison, r: Exp, i: usize) -> Constraint { Constraint::new(l, c, r, cn(i)) }
+
+fn canon(x: f64) -> f64 { if x.is_nan() { f64::from_bits(0x7ff8000000000000) } else { x } }
+fn canon_ty(t: &VariableType) -> VariableType {
+    match t {
+        VariableType::NonNegativeReal(a, b) => VariableType::NonNegativeReal(canon(*a), canon(*b)),
+        VariableType::Real(a, b) => VariableType::Real(canon(*a), canon(*b)),
+        t => *t,
+    }
+}
+fn b(lo: f64, hi: f64) -> String { format!("(b {} {})", sx::num(canon(lo)), sx::num(canon(hi))) }
+
+fn run(inst: &Inst) -> Case {
+    let mut used = vec![];
+    for c in &inst.constraints { names(c.lhs(), &mut used); names(c.rhs(), &mut used); }
+    let mut domain: IndexMap<String, DomainVariable> = IndexMap::new();
+    for (n, t) in &inst.domain {
+        let mut d = DomainVariable::new(*t, InputSpan::default());
+        if used.contains(n) { d.increment_usage(); }
+        domain.insert(n.clone(), d);
+    }
+    // undeclared variables are observed through an extra expression each
+    let mut exprs = inst.exprs.clone();
+    let mut mentioned = used.clone();
+    for e in &inst.exprs { names(e, &mut mentioned); }
+    for n in &mentioned {
+        if !domain.contains_key(n) { exprs.push(v(n)); }
+    }
+    let mut req = format!("analyze {} {} (constraints", sx::num(TOL), sx::domain(&domain));
+    for c in &inst.constraints { req.push(' '); req.push_str(&sx::constraint(c)); }
+    req.push_str(") (exprs");
+    for e in &exprs { req.push(' '); req.push_str(&sx::exp(e)); }
+    req.push_str(")");
+    let mut c = Case::default();
+    let res = std::panic::catch_unwind(|| analyze_bounds(&domain, &inst.constraints, &exprs));
+    match res {
+        Ok(rep) => {
+            let mut imp = String::from("(ok (vars");
+            for (_, lo, hi) in &rep.variables { imp.push(' '); imp.push_str(&b(*lo, *hi)); }
+            imp.push_str(") (exprs");
+            for (lo, hi) in &rep.expressions { imp.push(' '); imp.push_str(&b(*lo, *hi)); }
+            imp.push_str(") ");
+            let mut dom = rep.domain.clone();
+            for (_, d) in dom.iter_mut() {
+                // canonical NaN only (set_type is crate-private: rebuild)
+                let t = canon_ty(d.get_type());
+                let mut nd = DomainVariable::new(t, InputSpan::default());
+                for _ in 0..d.usage_count() { nd.increment_usage(); }
+                *d = nd;
+            }
+            imp.push_str(&sx::domain(&dom));
+            imp.push(')');
+            c.nontrivial = rep.variables.iter().zip(inst.domain.iter()).any(|((_, lo, hi), (_, t))| {
+                let (dl, dh) = match t {
+                    VariableType::Boolean => (0.0, 1.0),
+                    VariableType::IntegerRange(a, b) => (*a as f64, *b as f64),
+                    VariableType::NonNegativeReal(a, b) | VariableType::Real(a, b) => (*a, *b),
+                };
+                lo.to_bits() != dl.to_bits() || hi.to_bits() != dh.to_bits()
+            });
+            c.oracle = format!("check {} {}", &req["analyze ".len()..], imp);
+            c.imp = imp;
+        }
+        Err(_) => {
+            c.imp = "(err panic)".into();
+            c.impl_violation = Some("analyze_bounds panicked".into());
+        }
+    }
+    c.req = req;
+    c.tags = inst.tags.clone();
+    c.tags.push(if c.nontrivial { "tightened".into() } else { "untouched".into() });
+    let mut show = String::new();
+    for (n, t) in &inst.domain { show.push_str(&format!("{} as {:?}; ", n, t)); }
+    show.push_str("s.t. ");
+    for x in &inst.constraints { show.push_str(&format!("{} {} {}; ", x.lhs(), x.constraint_type(), x.rhs())); }
+    if !exprs.is_empty() {
+        show.push_str("exprs: ");
+        for e in &exprs { show.push_str(&format!("{}; ", e)); }
+    }
+    c.show = show;
+    c
+}
+
+// ---------------------------------------------------------------- value pools
+fn nice(r: &mut Rng) -> f64 {
+    match r.below(12) {
+        0 | 1 => r.range(-6, 6) as f64,
+        2 => r.range(1, 9) as f64,
+        3 => r.range(-20, 20) as f64 / 4.0,
+        4 => r.range(-50, 50) as f64 / 10.0,
+        5 => *r.pick(&[1.9, 0.1, 0.3, 0.7, 2.7, 1.1, -1.9, -0.1, 3.3, 0.9999]),
+        6 => *r.pick(&[1.0, -1.0, 2.0, 0.5, -0.5, 3.0]),
+        7 => r.range(-100, 100) as f64 / 7.0,
+        8 => r.range(1, 40) as f64,
+        9 => 0.0,
+        _ => r.range(-3, 3) as f64,
+    }
+}
+fn coef(r: &mut Rng) -> f64 {
+    match r.below(10) {
+        0 => 0.0,
+        1 => *r.pick(&[1.9, 0.1, 0.3, -1.9, -0.1, 2.7, 1e-3, 1e3, 0.7, -0.3]),
+        2 | 3 => 1.0,
+        4 => -1.0,
+        5 => r.range(-40, 40) as f64 / 8.0,
+        _ => { let x = r.range(-5, 5) as f64; if x == 0.0 { 2.0 } else { x } }
+    }
+}
+fn delta(r: &mut Rng) -> f64 {
+    let d = *r.pick(&[1e-10, 5e-10, 9.9e-10, 1e-9, 1.0000001e-9, 2e-9, 1e-8, 2e-5, 1e-12, 0.0]);
+    if r.chance(1, 2) { d } else { -d }
+}
+fn special(r: &mut Rng) -> f64 {
+    *r.pick(&[INF, -INF, f64::NAN, -0.0, 1e300, -1e300, 5e-324, 1e-300, 1e16, 9007199254740993.0, 0.0])
+}
+fn cmp(r: &mut Rng) -> Comparison {
+    *r.pick(&[Comparison::LessOrEqual, Comparison::LessOrEqual, Comparison::GreaterOrEqual, Comparison::GreaterOrEqual,
+              Comparison::Equal, Comparison::Less, Comparison::Greater])
+}
+
+fn var_type(r: &mut Rng, wild: bool) -> VariableType {
+    match r.below(if wild { 14 } else { 11 }) {
+        0 => VariableType::Boolean,
+        1 | 2 => { let a = r.range(-6, 4); VariableType::IntegerRange(a as i32, (a + r.range(0, 8)) as i32) }
+        3 => { let a = r.range(0, 3); VariableType::IntegerRange(a as i32, (a + r.range(0, 30)) as i32) }
+        4 | 5 => { let a = r.range(0, 8) as f64 / 2.0; VariableType::NonNegativeReal(a, a + r.range(0, 12) as f64 / 2.0) }
+        6 => VariableType::NonNegativeReal(0.0, INF),
+        7 | 8 => { let a = r.range(-12, 6) as f64 / 2.0; VariableType::Real(a, a + r.range(0, 20) as f64 / 2.0) }
+        9 => VariableType::Real(-INF, INF),
+        10 => if r.chance(1, 2) { VariableType::Real(-INF, r.range(-3, 8) as f64) } else { VariableType::Real(r.range(-8, 3) as f64, INF) },
+        11 => *r.pick(&[VariableType::IntegerRange(i32::MIN, i32::MAX), VariableType::IntegerRange(i32::MAX - 1, i32::MAX),
+                        VariableType::IntegerRange(i32::MIN, i32::MIN + 3), VariableType::IntegerRange(5, 2)]),
+        12 => VariableType::NonNegativeReal(-(r.range(1, 5) as f64), r.range(0, 5) as f64), // malformed: negative lower
+        _ => { let a = special(r); let b = special(r); if r.chance(1, 2) { VariableType::Real(a, b) } else { VariableType::NonNegativeReal(a, b) } }
+    }
+}
+fn var_names(n: usize) -> Vec<String> { ["x", "y", "z", "w", "u", "t", "s", "p"][..n].iter().map(|s| s.to_string()).collect() }
+
+/// `c * x` in one of the spellings the affine recogniser accepts (or a plain variable for c = 1).
+fn term(r: &mut Rng, c: f64, x: &str) -> Exp {
+    if c == 1.0 && r.chance(2, 3) { return v(x); }
+    if c == -1.0 && r.chance(1, 2) { return neg(v(x)); }
+    match r.below(6) {
+        0 | 1 | 2 => mul(k(c), v(x)),
+        3 => mul(v(x), k(c)),
+        4 if c != 0.0 && (1.0 / c).is_finite() => div(v(x), k(1.0 / c)),
+        _ => if c < 0.0 { neg(mul(k(-c), v(x))) } else { mul(k(c), v(x)) },
+    }
+}
+/// random affine expression over `vars` with an optional constant; may repeat a variable.
+fn affine(r: &mut Rng, vars: &[String], terms: (usize, usize), with_const: Option<bool>) -> Exp {
+    let terms = terms.0 + r.below(terms.1);
+    let with_const = match with_const { Some(b) => b, None => r.chance(1, 3) };
+    let mut e: Option<Exp> = None;
+    let mut push = |e: &mut Option<Exp>, t: Exp, r: &mut Rng| {
+        *e = Some(match e.take() { None => t, Some(p) => if r.chance(1, 4) { sub(p, t) } else { add(p, t) } });
+    };
+    for _ in 0..terms {
+        let c = coef(r);
+        let x = r.pick(vars).clone();
+        let t = term(r, c, &x);
+        push(&mut e, t, r);
+    }
+    if with_const || e.is_none() { let c = nice(r); push(&mut e, k(c), r); }
+    let e = e.unwrap();
+    match r.below(12) { 0 => mul(k(coef(r)), e), 1 => div(e, k(*r.pick(&[2.0, -2.0, 0.5, 3.0, 1.9]))), 2 => neg(e), _ => e }
+}
+
+fn std_exprs(r: &mut Rng, vars: &[String], n: usize) -> Vec<Exp> {
+    let cfg = ExpCfg { vars: vars.to_vec(), logic: true, minmax: true, special: false };
+    let arith = ExpCfg { vars: vars.to_vec(), logic: false, minmax: true, special: false };
+    let mut out = vec![];
+    for i in 0..n {
+        out.push(match r.below(10) {
+            0 => abs(affine(r, vars, (2, 0), Some(true))),
+            1 => Exp::Min(vec![affine(r, vars, (1, 0), Some(true)), affine(r, vars, (1, 0), Some(false))]),
+            2 => Exp::Max(vec![affine(r, vars, (1, 0), Some(true)), affine(r, vars, (1, 0), Some(false)), k(nice(r))]),
+            3 => affine(r, vars, (3, 0), Some(true)),
+            4 => mul(pv(r, vars), pv(r, vars)),
+            5 => div(affine(r, vars, (2, 0), Some(true)), k(*r.pick(&[0.0, 2.0, -4.0, 0.1, -0.0]))),
+            6 | 7 => gen_exp::exp(r, if i % 2 == 0 { &cfg } else { &arith }, 3),
+            8 => mul(k(coef(r)), abs(pv(r, vars))),
+            _ => sub(Exp::Max(vec![pv(r, vars), k(0.0)]), Exp::Min(vec![pv(r, vars), k(1.0)])),
+        });
+    }
+    out
+}
+
+// ---------------------------------------------------------------- steering towards feasible instances
+fn ev(e: &Exp, p: &[(String, f64)]) -> f64 {
+    let t = |x: f64| x != 0.0;
+    let bl = |b: bool| if b { 1.0 } else { 0.0 };
+    match e {
+        Exp::Number(x) => *x,
+        Exp::Variable(n) => p.iter().find(|(m, _)| m == n).map(|q| q.1).unwrap_or(0.0),
+        Exp::Abs(a) => ev(a, p).abs(),
+        Exp::Min(es) => es.iter().map(|e| ev(e, p)).fold(f64::INFINITY, f64::min),
+        Exp::Max(es) => es.iter().map(|e| ev(e, p)).fold(f64::NEG_INFINITY, f64::max),
+        Exp::And(es) => bl(es.iter().all(|e| t(ev(e, p)))),
+        Exp::Or(es) => bl(es.iter().any(|e| t(ev(e, p)))),
+        Exp::Not(a) | Exp::UnOp(UnOp::Not, a) => bl(!t(ev(a, p))),
+        Exp::UnOp(UnOp::Neg, a) => -ev(a, p),
+        Exp::Xor(a, b) | Exp::BinOp(BinOp::Xor, a, b) => bl(t(ev(a, p)) != t(ev(b, p))),
+        Exp::Implies(a, b) | Exp::BinOp(BinOp::Implies, a, b) => bl(!t(ev(a, p)) || t(ev(b, p))),
+        Exp::Iff(a, b) | Exp::BinOp(BinOp::Iff, a, b) => bl(t(ev(a, p)) == t(ev(b, p))),
+        Exp::BinOp(BinOp::And, a, b) => bl(t(ev(a, p)) && t(ev(b, p))),
+        Exp::BinOp(BinOp::Or, a, b) => bl(t(ev(a, p)) || t(ev(b, p))),
+        Exp::BinOp(BinOp::Add, a, b) => ev(a, p) + ev(b, p),
+        Exp::BinOp(BinOp::Sub, a, b) => ev(a, p) - ev(b, p),
+        Exp::BinOp(BinOp::Mul, a, b) => ev(a, p) * ev(b, p),
+        Exp::BinOp(BinOp::Div, a, b) => ev(a, p) / ev(b, p),
+    }
+}
+fn point_in(r: &mut Rng, t: &VariableType) -> f64 {
+    let (lo, hi, int) = match t {
+        VariableType::Boolean => (0.0, 1.0, true),
+        VariableType::IntegerRange(a, b) => (*a as f64, *b as f64, true),
+        VariableType::NonNegativeReal(a, b) => (a.max(0.0), *b, false),
+        VariableType::Real(a, b) => (*a, *b, false),
+    };
+    let lo = if lo.is_finite() { lo } else if hi.is_finite() { hi - 8.0 } else { -4.0 };
+    let hi = if hi.is_finite() { hi } else { lo + 8.0 };
+    if !(lo <= hi) { return lo; }
+    match r.below(5) {
+        0 => lo,
+        1 => hi,
+        _ => {
+            let steps = if int { (hi - lo).min(1000.0) as i64 } else { 8 };
+            let x = lo + (hi - lo) * (r.range(0, steps.max(1)) as f64) / (steps.max(1) as f64);
+            if int { x.round().clamp(lo, hi) } else { x }
+        }
+    }
+}
+/// shifts the right-hand sides so that a hidden in-domain point satisfies every row (up to rounding of the
+/// shift itself); rows are tight at the point with probability 1/3.
+fn steer(r: &mut Rng, inst: &mut Inst) {
+    let p: Vec<(String, f64)> = inst.domain.iter().map(|(n, t)| (n.clone(), point_in(r, t))).collect();
+    let old = std::mem::take(&mut inst.constraints);
+    for (i, c) in old.into_iter().enumerate() {
+        if c.is_logic_assertion() { inst.constraints.push(c); continue; }
+        let d = ev(c.lhs(), &p) - ev(c.rhs(), &p);
+        if !d.is_finite() { inst.constraints.push(c); continue; }
+        let slack = if r.chance(1, 3) { 0.0 } else { *r.pick(&[0.5, 1.0, 2.0, 0.1, 3.5]) };
+        let op = c.constraint_type();
+        let shift = match op {
+            Comparison::LessOrEqual | Comparison::Less => d + slack,
+            Comparison::GreaterOrEqual | Comparison::Greater => d - slack,
+            Comparison::Equal => d,
+        };
+        let (l, _, rr, _) = c.into_parts();
+        let rr = match rr { Exp::Number(x) => k(x + shift), e => if shift == 0.0 { e } else { add(e, k(shift)) } };
+        inst.constraints.push(row(l, op, rr, i));
+    }
+    inst.tags.push("steered".into());
+}
+
+// ---------------------------------------------------------------- streams
+fn s_affine(r: &mut Rng) -> Inst {
+    let n = 1 + r.below(4);
+    let vars = var_names(n);
+    let domain = vars.iter().map(|x| (x.clone(), var_type(r, false))).collect();
+    let m = 1 + r.below(4);
+    let mut cs = vec![];
+    for i in 0..m {
+        let lhs = affine(r, &vars, (1, 3), None);
+        let rhs = if r.chance(2, 3) { k(nice(r)) } else { affine(r, &vars, (0, 2), Some(true)) };
+        cs.push(row(lhs, cmp(r), rhs, i));
+    }
+    let exprs = std_exprs(r, &vars, 2);
+    Inst { domain, constraints: cs, exprs, tags: vec!["affine".into()] }
+}
+
+fn s_chain(r: &mut Rng) -> Inst {
+    let n = 3 + r.below(6);
+    let vars = var_names(n.min(8));
+    let n = vars.len();
+    let wide = r.chance(1, 2);
+    let domain: Vec<(String, VariableType)> = vars.iter().map(|x| (x.clone(),
+        if wide { VariableType::Real(-INF, INF) } else { var_type(r, false) })).collect();
+    let mut cs = vec![];
+    // the anchor is listed LAST so that information has to travel back through re-queued rows
+    for i in (0..n - 1).rev() {
+        let c = *r.pick(&[1.0, 1.0, 2.0, 0.5, 1.9, -1.0, 0.1, 3.0]);
+        let rhs = add(term(r, c, &vars[i]), k(nice(r)));
+        let op = *r.pick(&[Comparison::LessOrEqual, Comparison::Equal, Comparison::Equal, Comparison::GreaterOrEqual]);
+        cs.push(row(v(&vars[i + 1]), op, rhs, cs.len()));
+    }
+    let a = nice(r);
+    if r.chance(1, 2) { cs.push(row(v(&vars[0]), Comparison::LessOrEqual, k(a + r.below(5) as f64), cs.len())); }
+    cs.push(row(v(&vars[0]), Comparison::GreaterOrEqual, k(a), cs.len()));
+    if r.chance(1, 3) { cs.reverse(); }
+    let exprs = std_exprs(r, &vars, 2);
+    Inst { domain, constraints: cs, exprs, tags: vec!["chain".into()] }
+}
+
+fn s_contradiction(r: &mut Rng) -> Inst {
+    let mut inst = if r.chance(1, 2) { s_affine(r) } else { s_chain(r) };
+    let x = inst.domain[r.below(inst.domain.len())].0.clone();
+    let pos = r.below(inst.constraints.len() + 1);
+    let bad = match r.below(5) {
+        0 => vec![row(v(&x), Comparison::GreaterOrEqual, k(1e6), 90)],
+        1 => vec![row(v(&x), Comparison::LessOrEqual, k(3.0), 90), row(v(&x), Comparison::GreaterOrEqual, k(3.0 + *r.pick(&[1e-9, 2e-9, 1.0, 1e-6])), 91)],
+        2 => vec![row(k(1.0), Comparison::LessOrEqual, k(0.0), 90)],
+        3 => vec![row(abs(v(&x)), Comparison::LessOrEqual, k(-1.0), 90)],
+        _ => vec![row(add(v(&x), k(1.0)), Comparison::Equal, v(&x), 90)],
+    };
+    for (j, c) in bad.into_iter().enumerate() { inst.constraints.insert((pos + j).min(inst.constraints.len()), c); }
+    inst.tags = vec!["contradiction".into()];
+    inst
+}
+
+fn s_tolerance(r: &mut Rng) -> Inst {
+    let kk = r.range(-3, 6) as f64;
+    let kind = r.below(8);
+    let ty = match r.below(4) {
+        0 => VariableType::IntegerRange(kk as i32 - 4, kk as i32 + 4),
+        1 => VariableType::Real(kk - 4.0, kk + 4.0),
+        2 => VariableType::NonNegativeReal((kk - 4.0).max(0.0), kk + 4.0),
+        _ => VariableType::Real(-INF, INF),
+    };
+    let mut domain = vec![("x".to_string(), ty), ("y".to_string(), VariableType::IntegerRange(-10, 10))];
+    let mut cs = vec![];
+    match kind {
+        0 => { // bound at a declared endpoint ± delta: intersection's tolerance branch
+            domain[0].1 = VariableType::Real(kk - 4.0, kk);
+            cs.push(row(v("x"), Comparison::GreaterOrEqual, k(kk + delta(r)), 0));
+        }
+        1 => { // two updates that differ by about the tolerance: tolerance-gated tighten_variable
+            cs.push(row(v("x"), Comparison::LessOrEqual, k(kk), 0));
+            cs.push(row(v("x"), Comparison::LessOrEqual, k(kk + delta(r)), 1));
+            cs.push(row(v("x"), Comparison::GreaterOrEqual, k(kk - 2.0 + delta(r)), 2));
+            cs.push(row(v("x"), Comparison::GreaterOrEqual, k(kk - 2.0), 3));
+        }
+        2 => { // c * (1 / c) integer rounding
+            let c = *r.pick(&[1.9, 0.1, 0.3, 0.7, 2.7, 1.1, 3.3, 49.0, 0.07, 1e-3]);
+            let n = r.range(-5, 8) as f64;
+            cs.push(row(mul(k(c), v("y")), *r.pick(&[Comparison::LessOrEqual, Comparison::GreaterOrEqual, Comparison::Equal]), k(c * n), 0));
+            cs.push(row(mul(k(c), v("x")), Comparison::LessOrEqual, k(c * kk), 1));
+        }
+        3 => { // integer bound a hair away from an integer
+            cs.push(row(v("y"), Comparison::GreaterOrEqual, k(kk + delta(r)), 0));
+            cs.push(row(v("y"), Comparison::LessOrEqual, k(kk + 2.0 + delta(r)), 1));
+        }
+        4 => { // nearly empty integer interval
+            cs.push(row(v("y"), Comparison::GreaterOrEqual, k(kk + 0.3), 0));
+            cs.push(row(v("y"), Comparison::LessOrEqual, k(kk + 0.6), 1));
+        }
+        5 => { // equality against an interval that misses by delta
+            domain[0].1 = VariableType::Real(kk, kk + 1.0);
+            cs.push(row(add(v("x"), v("y")), Comparison::Equal, k(kk + 11.0 + delta(r)), 0));
+        }
+        6 => { // piecewise route with tolerance boundary
+            domain[0].1 = VariableType::Real(kk - 4.0, kk);
+            cs.push(row(Exp::Max(vec![v("x"), v("y")]), Comparison::LessOrEqual, k(kk - 4.0 + delta(r)), 0));
+        }
+        _ => {
+            cs.push(row(sub(v("x"), v("y")), Comparison::LessOrEqual, k(delta(r)), 0));
+            cs.push(row(sub(v("y"), v("x")), Comparison::LessOrEqual, k(delta(r)), 1));
+            cs.push(row(v("y"), Comparison::Equal, k(kk), 2));
+        }
+    }
+    let vars = var_names(2);
+    let exprs = std_exprs(r, &vars, 1);
+    Inst { domain, constraints: cs, exprs, tags: vec!["tolerance".into(), format!("tolerance-{}", kind)] }
+}
+
+fn piece(r: &mut Rng, vars: &[String], depth: u32) -> Exp {
+    let leaf = |r: &mut Rng| if r.chance(3, 4) { affine(r, vars, (1, 2), None) } else { k(nice(r)) };
+    if depth == 0 { return leaf(r); }
+    match r.below(8) {
+        0 | 1 => abs(piece(r, vars, depth - 1)),
+        2 => Exp::Min((0..1 + r.below(3)).map(|_| piece(r, vars, depth - 1)).collect()),
+        3 => Exp::Max((0..1 + r.below(3)).map(|_| piece(r, vars, depth - 1)).collect()),
+        4 => add(piece(r, vars, depth - 1), leaf(r)),
+        5 => sub(leaf(r), piece(r, vars, depth - 1)),
+        6 => match r.below(4) {
+            0 => mul(k(coef(r)), piece(r, vars, depth - 1)),
+            1 => mul(piece(r, vars, depth - 1), k(coef(r))),
+            2 => div(piece(r, vars, depth - 1), k(*r.pick(&[2.0, -2.0, 0.5, 0.0, 1.9]))),
+            _ => neg(piece(r, vars, depth - 1)),
+        },
+        _ => leaf(r),
+    }
+}
+fn s_piecewise(r: &mut Rng) -> Inst {
+    let n = 1 + r.below(3);
+    let vars = var_names(n);
+    let domain = vars.iter().map(|x| (x.clone(), var_type(r, false))).collect();
+    let m = 1 + r.below(3);
+    let mut cs = vec![];
+    for i in 0..m {
+        let dp = 1 + r.below(2) as u32;
+        let p = piece(r, &vars, dp);
+        let o = if r.chance(1, 4) { piece(r, &vars, 1) } else if r.chance(1, 3) { affine(r, &vars, (1, 0), Some(true)) } else { k(nice(r)) };
+        if r.chance(2, 3) { cs.push(row(p, cmp(r), o, i)); } else { cs.push(row(o, cmp(r), p, i)); }
+    }
+    if r.chance(1, 2) { cs.push(row(affine(r, &vars, (2, 0), Some(false)), cmp(r), k(nice(r)), m)); }
+    let exprs = std_exprs(r, &vars, 2);
+    Inst { domain, constraints: cs, exprs, tags: vec!["piecewise".into()] }
+}
+
+fn s_nonaffine(r: &mut Rng) -> Inst {
+    let n = 2 + r.below(2);
+    let vars = var_names(n);
+    let domain = vars.iter().map(|x| (x.clone(), var_type(r, false))).collect();
+    let cfg = ExpCfg { vars: vars.clone(), logic: true, minmax: true, special: false };
+    let mut cs = vec![];
+    let m = 1 + r.below(3);
+    for i in 0..m {
+        let l = match r.below(6) {
+            0 => mul(pv(r, &vars), pv(r, &vars)),
+            1 => div(k(nice(r)), pv(r, &vars)),
+            2 => add(mul(pv(r, &vars), affine(r, &vars, (1, 0), Some(true))), pv(r, &vars)),
+            3 => bin(*r.pick(&gen_exp::BINOPS[4..]), pv(r, &vars), pv(r, &vars)),
+            _ => gen_exp::exp(r, &cfg, 3),
+        };
+        if r.chance(1, 6) { cs.push(Constraint::new_logic_assertion(l, cn(i))); }
+        else if r.chance(1, 2) { cs.push(row(l, cmp(r), affine(r, &vars, (1, 0), Some(true)), i)); }
+        else { cs.push(row(add(l, affine(r, &vars, (1, 0), Some(false))), cmp(r), k(nice(r)), i)); }
+    }
+    cs.push(row(affine(r, &vars, (2, 0), Some(false)), cmp(r), k(nice(r)), m));
+    let exprs = std_exprs(r, &vars, 2);
+    Inst { domain, constraints: cs, exprs, tags: vec!["nonaffine".into()] }
+}
+
+fn s_steplimit(r: &mut Rng) -> Inst {
+    // contraction factor 1 - eps: the box shrinks by more than the tolerance per visit for far more than
+    // DEFAULT_MAX_STEPS visits
+    let q = *r.pick(&[0.9999, 0.99995, 0.99999]);
+    let hi = *r.pick(&[100.0, 1000.0, 64.0]);
+    let kind = r.below(3);
+    let (domain, cs) = match kind {
+        0 => (vec![("x".to_string(), VariableType::Real(0.0, hi)), ("y".to_string(), VariableType::Real(0.0, hi))],
+              vec![row(v("x"), Comparison::LessOrEqual, mul(k(q), v("y")), 0), row(v("y"), Comparison::LessOrEqual, v("x"), 1)]),
+        1 => (vec![("x".to_string(), VariableType::IntegerRange(0, hi as i32)), ("y".to_string(), VariableType::NonNegativeReal(0.0, hi))],
+              vec![row(sub(v("x"), mul(k(q), v("y"))), Comparison::LessOrEqual, k(0.0), 0), row(v("y"), Comparison::Equal, v("x"), 1),
+                   row(v("x"), Comparison::GreaterOrEqual, k(0.0), 2)]),
+        _ => (vec![("x".to_string(), VariableType::Real(-hi, hi)), ("y".to_string(), VariableType::Real(-hi, hi)), ("z".to_string(), VariableType::Real(-hi, hi))],
+              vec![row(abs(v("x")), Comparison::LessOrEqual, mul(k(q), v("y")), 0), row(v("y"), Comparison::LessOrEqual, Exp::Max(vec![v("z"), k(0.0)]), 1),
+                   row(v("z"), Comparison::LessOrEqual, abs(v("x")), 2)]),
+    };
+    let vars = var_names(2);
+    let exprs = std_exprs(r, &vars, 1);
+    Inst { domain, constraints: cs, exprs, tags: vec!["step-limit".into()] }
+}
+
+fn s_zero(r: &mut Rng) -> Inst {
+    let vars = var_names(2 + r.below(2));
+    let domain = vars.iter().map(|x| (x.clone(), var_type(r, false))).collect();
+    let z = *r.pick(&[0.0, -0.0]);
+    let x = vars[0].clone();
+    let y = vars[1].clone();
+    let mut cs = vec![];
+    for i in 0..1 + r.below(3) {
+        let l = match r.below(9) {
+            0 => add(mul(k(z), v(&x)), v(&y)),
+            1 => add(div(v(&x), k(z)), v(&y)),
+            2 => sub(add(v(&x), v(&y)), v(&x)),                      // cancels to zero: shift_remove
+            3 => add(sub(mul(k(2.0), v(&x)), mul(v(&x), k(2.0))), v(&y)),
+            4 => mul(add(v(&x), v(&y)), k(z)),
+            5 => div(add(v(&x), k(1.0)), k(*r.pick(&[2.0, -2.0, 0.1, 1e-3, 4.0]))),
+            6 => add(mul(k(1e-200), mul(k(1e-200), v(&x))), v(&y)),  // underflows to a zero coefficient
+            7 => add(abs(mul(k(z), v(&x))), div(abs(v(&y)), k(z))),
+            _ => sub(mul(k(0.1), v(&x)), add(mul(k(0.1), v(&x)), neg(v(&y)))),
+        };
+        cs.push(row(l, cmp(r), if r.chance(1, 2) { k(nice(r)) } else { affine(r, &vars, (1, 0), Some(true)) }, i));
+    }
+    let mut exprs = std_exprs(r, &vars, 1);
+    exprs.push(div(v(&x), k(z)));
+    exprs.push(mul(k(z), v(&y)));
+    exprs.push(div(affine(r, &vars, (2, 0), Some(true)), k(coef(r))));
+    Inst { domain, constraints: cs, exprs, tags: vec!["zero-div".into()] }
+}
+
+fn s_special(r: &mut Rng) -> Inst {
+    let vars = var_names(1 + r.below(3));
+    let domain = vars.iter().map(|x| (x.clone(), var_type(r, true))).collect();
+    let cfg = ExpCfg { vars: vars.clone(), logic: true, minmax: true, special: true };
+    let mut cs = vec![];
+    for i in 0..1 + r.below(3) {
+        let l = match r.below(6) {
+            0 => mul(k(special(r)), pv(r, &vars)),
+            1 => add(pv(r, &vars), k(special(r))),
+            2 => div(pv(r, &vars), k(special(r))),
+            3 => add(mul(k(special(r)), pv(r, &vars)), mul(k(special(r)), pv(r, &vars))),
+            4 => abs(mul(k(special(r)), pv(r, &vars))),
+            _ => gen_exp::exp(r, &cfg, 3),
+        };
+        let rhs = if r.chance(1, 3) { k(special(r)) } else { k(nice(r)) };
+        cs.push(row(l, cmp(r), rhs, i));
+    }
+    let mut exprs = vec![gen_exp::exp(r, &cfg, 3), mul(k(special(r)), v(&vars[0])), div(v(&vars[0]), k(special(r)))];
+    exprs.push(abs(v(&vars[0])));
+    Inst { domain, constraints: cs, exprs, tags: vec!["special".into()] }
+}
+
+fn s_random(r: &mut Rng) -> Inst {
+    let vars = var_names(1 + r.below(3));
+    let domain = vars.iter().map(|x| (x.clone(), var_type(r, false))).collect();
+    let cfg = ExpCfg { vars: vars.clone(), logic: r.chance(1, 2), minmax: true, special: false };
+    let mut cs = vec![];
+    for i in 0..1 + r.below(3) {
+        let dp = 2 + r.below(3) as u32;
+        let l = gen_exp::exp(r, &cfg, dp);
+        let rr = if r.chance(1, 2) { k(nice(r)) } else { gen_exp::exp(r, &cfg, 2) };
+        if r.chance(1, 8) { cs.push(Constraint::new_logic_assertion(l, cn(i))); } else { cs.push(row(l, cmp(r), rr, i)); }
+    }
+    let exprs = vec![gen_exp::exp(r, &cfg, 3), gen_exp::exp(r, &cfg, 4)];
+    Inst { domain, constraints: cs, exprs, tags: vec!["random-exp".into()] }
+}
+
+fn s_undeclared(r: &mut Rng) -> Inst {
+    let mut inst = if r.chance(1, 2) { s_affine(r) } else { s_piecewise(r) };
+    // drop one declaration, or mention a new name
+    if inst.domain.len() > 1 && r.chance(1, 2) { inst.domain.remove(r.below(inst.domain.len())); }
+    else {
+        let i = inst.constraints.len();
+        inst.constraints.push(row(add(v("q"), v(&inst.domain[0].0)), cmp(r), k(nice(r)), i));
+        inst.exprs.push(add(v("q"), k(1.0)));
+    }
+    inst.tags = vec!["undeclared".into()];
+    inst
+}
+
+/// hand-written instances: the unit tests of bounds.rs and the shapes named in DESIGN.md §6 C07.
+fn fixed() -> Vec<Inst> {
+    let real = |a: f64, b: f64| VariableType::Real(a, b);
+    let d = |xs: Vec<(&str, VariableType)>| xs.into_iter().map(|(n, t)| (n.to_string(), t)).collect::<Vec<_>>();
+    let le = Comparison::LessOrEqual;
+    let ge = Comparison::GreaterOrEqual;
+    let eq = Comparison::Equal;
+    let t = |s: &str| vec!["fixed".to_string(), s.to_string()];
+    vec![
+        Inst { domain: d(vec![("x", real(-INF, INF)), ("y", real(1.0, 2.0))]),
+               constraints: vec![row(add(mul(k(2.0), v("x")), v("y")), le, k(8.0), 0)], exprs: vec![sub(mul(k(-2.0), v("x")), v("y"))], tags: t("unit-affine") },
+        Inst { domain: d(vec![("x", real(-INF, INF)), ("y", real(-INF, INF))]),
+               constraints: vec![row(v("y"), eq, add(v("x"), k(2.0)), 0), row(v("y"), le, k(5.0), 1)], exprs: vec![], tags: t("unit-chain") },
+        Inst { domain: d(vec![]), constraints: vec![row(k(1.0), le, k(0.0), 0)], exprs: vec![k(1.0)], tags: t("unit-const-contradiction") },
+        Inst { domain: d(vec![("x", real(0.0, 1.0))]), constraints: vec![row(v("x"), ge, k(2.0), 0)], exprs: vec![], tags: t("unit-var-contradiction") },
+        Inst { domain: d(vec![("x", real(-INF, INF)), ("y", real(-INF, INF))]),
+               constraints: vec![row(abs(v("x")), le, k(4.0), 0), row(Exp::Max(vec![v("x"), v("y")]), le, k(5.0), 1),
+                                 row(Exp::Min(vec![v("x"), v("y")]), ge, k(-2.0), 2)], exprs: vec![abs(v("x")), Exp::Min(vec![v("x"), v("y")])], tags: t("unit-piecewise-safe") },
+        Inst { domain: d(vec![("x", real(-5.0, 5.0)), ("y", real(-5.0, 5.0))]),
+               constraints: vec![row(abs(v("x")), ge, k(3.0), 0), row(Exp::Max(vec![v("x"), v("y")]), ge, k(4.0), 1),
+                                 row(Exp::Min(vec![v("x"), v("y")]), le, k(-4.0), 2)], exprs: vec![], tags: t("unit-piecewise-disjunctive") },
+        Inst { domain: d(vec![("x", VariableType::IntegerRange(-10, 10)), ("y", VariableType::NonNegativeReal(0.0, 10.0)), ("z", real(-10.0, 10.0))]),
+               constraints: vec![row(v("x"), ge, k(-2.2), 0), row(v("x"), le, k(3.7), 1), row(v("y"), ge, k(2.0), 2), row(v("z"), le, k(4.0), 3)],
+               exprs: vec![], tags: t("unit-rounding") },
+        // DESIGN: 3x <= 1 publishes 1 * (1/3) rounded
+        Inst { domain: d(vec![("x", real(-INF, INF))]), constraints: vec![row(mul(k(3.0), v("x")), le, k(1.0), 0)], exprs: vec![mul(k(3.0), v("x"))], tags: t("third") },
+        // DESIGN / C01: derived bound on a Boolean that apply_to_domain never publishes
+        Inst { domain: d(vec![("x", VariableType::Boolean)]), constraints: vec![row(Exp::Max(vec![v("x"), k(0.5)]), le, k(0.5), 0)],
+               exprs: vec![Exp::Max(vec![v("x"), k(0.5)])], tags: t("boolean-half") },
+        // C08: infinite literal coefficient -> 0 * inf = NaN
+        Inst { domain: d(vec![("x", VariableType::NonNegativeReal(0.0, INF))]), constraints: vec![row(mul(k(INF), v("x")), ge, k(1.0), 0)],
+               exprs: vec![mul(k(INF), v("x"))], tags: t("inf-coefficient") },
+        // C10: -2 * x as (0-2) * x is not affine for from_exp
+        Inst { domain: d(vec![("x", real(-INF, INF)), ("y", real(0.0, 3.0))]),
+               constraints: vec![row(mul(sub(k(0.0), k(2.0)), v("x")), le, k(4.0), 0), row(abs(v("x")), eq, v("y"), 1)], exprs: vec![abs(v("x"))], tags: t("nonliteral-coefficient") },
+        // 1.9 * (1/1.9)
+        Inst { domain: d(vec![("n", VariableType::IntegerRange(0, 10))]), constraints: vec![row(mul(k(1.9), v("n")), ge, k(1.9 * 3.0), 0), row(mul(k(1.9), v("n")), le, k(1.9 * 5.0), 1)],
+               exprs: vec![], tags: t("one-point-nine") },
+        // saturating cast
+        Inst { domain: d(vec![("n", VariableType::IntegerRange(i32::MIN, i32::MAX))]), constraints: vec![row(mul(k(0.5), v("n")), le, k(1e12), 0)], exprs: vec![mul(k(4.0), v("n"))], tags: t("i32-limits") },
+    ]
+}
+
+pub fn generate(seed: u64, n: usize, _thorough: bool, _corpus: Option<&str>) -> Vec<Case> {
+    // `Rng::new(s)` and `Rng::new(s + 1)` are the same splitmix stream shifted by one draw: fork once so that
+    // different seeds give unrelated case sets
+    let mut r = Rng::new(seed).fork();
+    let mut cases: Vec<Case> = fixed().iter().map(run).collect();
+    // the step-limit stream costs 10^4 visits per case on both sides: a fixed small share
+    let slow = (n / 60).max(3);
+    for _ in 0..slow { cases.push(run(&s_steplimit(&mut r))); }
+    for i in 0..n {
+        let inst = match i % 16 {
+            0 | 1 | 2 => s_affine(&mut r),
+            3 | 4 => s_chain(&mut r),
+            5 => s_contradiction(&mut r),
+            6 | 7 => s_tolerance(&mut r),
+            8 | 9 | 10 => s_piecewise(&mut r),
+            11 => s_nonaffine(&mut r),
+            12 => s_zero(&mut r),
+            13 => s_special(&mut r),
+            14 => s_random(&mut r),
+            _ => s_undeclared(&mut r),
+        };
+        let mut inst = inst;
+        if matches!(i % 16, 0 | 1 | 3 | 8 | 9 | 11 | 12 | 14) && r.chance(5, 6) { steer(&mut r, &mut inst); }
+        cases.push(run(&inst));
+    }
+    cases
+}
